@@ -1155,6 +1155,15 @@ func FromV3Parameter(ref *openapi3.ParameterRef, components *openapi3.Components
 	}
 	if schemaRef := parameter.Schema; schemaRef != nil {
 		schemaRefV2, _ := FromV3SchemaRef(schemaRef, components)
+		if schemaRefV2 == nil {
+			// FromV3SchemaRef takes a binary string schema for a form file and returns no schema:
+			// for a query/header/path parameter keep what can be kept.
+			if v := schemaRef.Value; v != nil {
+				result.Type = v.Type
+				result.Format = v.Format
+			}
+			return result, nil
+		}
 		if ref := schemaRefV2.Ref; ref != "" {
 			result.Schema = &openapi2.SchemaRef{Ref: FromV3Ref(ref)}
 			return result, nil
